@@ -1,6 +1,6 @@
 (* C14 -- validating lazy APIs never hand out malformed fragments. Statements only. *)
 From Coq Require Import List Bool Arith NArith.
-From SonicV Require Import Spec.Ref Model.SkipStr Model.SkipNum Model.SkipAll Model.Skip Model.RefSound.
+From SonicV Require Import Spec.Ref Model.SkipStr Model.SkipNum Model.SkipAll Model.Skip Model.RefSound Model.IterSound Model.IterObjSound.
 Import ListNotations.
 Open Scope N_scope.
 
@@ -24,3 +24,8 @@ Proof. exact skip_num_sound. Qed.
 Theorem reference_get_returns_wf_fragment : forall l p a b, ref_get l p = Some (a, b) ->
   exists pre tok post, l = pre ++ tok ++ post /\ a = length pre /\ b = (a + length tok)%nat /\ Value tok.
 Proof. exact ref_get_sound. Qed.
+
+(* the same for the reference iterators: every yielded item is a well-formed value inside the input *)
+Theorem reference_iterators_return_wf_fragments : forall l k a b,
+  (In (IOk k a b) (ref_array_iter l) \/ In (IOk k a b) (ref_object_iter l)) -> located l a b.
+Proof. intros l k a b [H|H]; [exact (array_iterator_items_located l k a b H)|exact (object_iterator_items_located l k a b H)]. Qed.
